@@ -136,6 +136,13 @@ def _manager(col, rule="C12.R3"):
         for r in s2.of_kind("return"):
             if r.value not in (d, S.mcall(d, "copy"), S.fcall("dict", d)):
                 bad.append(f"__getstate__ returns {S.show(r.value)[:80]}")
+        # taking the state must not change the manager being pickled
+        for e in s2.of_kind("store") + s2.of_kind("del"):
+            for t in S.alts(e.target):
+                if S.is_attr(t, S.SELF) or (t[:1] == ("sub",) and t[1] == d):
+                    bad.append(f"__getstate__ writes {S.show(t)} of the manager being pickled")
+        for ev, m in s2.calls_some(("call", ("attr", d, S.V("m", lambda t: t in ("update", "pop", "clear", "setdefault", "popitem", "__setitem__", "__delitem__"))), S.ANY, S.ANY)):
+            bad.append(f"__getstate__ mutates the manager's own __dict__ ({S.show(ev.term)[:60]})")
     col.add(rule, "Manager#pickled-through-__dict__", not bad, mg.module.loc(mg.methods[hooks[0]]) if hooks else mg.module.loc(mg.node),
             "Manager's state is pickled and restored as its __dict__: the indices (reference-counted multisets whose multiplicities "
             "matter) come back exactly as they were, they are not rebuilt", "; ".join(bad))
@@ -191,6 +198,15 @@ def _default_containers(col, rule="C12.R4"):
                 ok = all(r_.value[:1] == ("tuple",) and r_.value[1] and r_.value[1][0] in CTORS + (("glob", cn),)
                          and (len(r_.value[1]) < 3 or r_.value[1][2] == ("const", "None")) for r_ in sx.of_kind("return")) and bool(sx.of_kind("return"))
                 how = f"{meth} rebuilds through the constructor" if ok else f"{meth} does not rebuild through the constructor with no separate state"
+                # the contents travel in the items slot, filled after the new object is memoised; contents handed to the
+                # constructor are pickled *before* it, so a container reachable from itself recurses without end
+                if ok:
+                    for r_ in sx.of_kind("return"):
+                        args = r_.value[1][1] if len(r_.value[1]) > 1 else ("tuple", ())
+                        if any(x == S.SELF for x in S.subterms(args)):
+                            ok = False
+                            how = f"{meth} passes the container's own contents as constructor arguments ({S.show(args)[:60]}): pickled before " \
+                                  "the instance is memoised, so a container that (indirectly) contains itself cannot be pickled"
         if not ok:
             r = repo.lookup(c, "__setstate__")
             if r is not None:
